@@ -41,10 +41,35 @@ class Purity:
         self._attr_mut: Dict[ClassDef, Set[str]] = {}
         self._self_in_progress: Set[FuncDef] = set()
 
+    @staticmethod
+    def _is_value_keyed_memo(f: FuncDef, stmt) -> bool:
+        """the statement sits under `if <local computed in this call> != self.<attr>:` - the stored value is
+        replaced exactly when the freshly computed key differs, i.e. a memo keyed by its input (a pure function of the
+        arguments as far as callers can tell)"""
+        from ..core import ancestors
+        if not f.self_name:
+            return False
+        for a in ancestors(stmt):
+            if a is f.node:
+                break
+            if isinstance(a, ast.If) and isinstance(a.test, ast.Compare) and len(a.test.ops) == 1 \
+                    and isinstance(a.test.ops[0], ast.NotEq) and stmt in ast.walk(ast.Module(body=a.body, type_ignores=[])):
+                sides = [a.test.left, a.test.comparators[0]]
+                selfs = [x for x in sides if isinstance(x, ast.Attribute) and isinstance(x.value, ast.Name)
+                         and x.value.id == f.self_name]
+                locs = [x for x in sides if isinstance(x, ast.Name)]
+                if len(selfs) == 1 and len(locs) == 1:
+                    bs = f.local_bindings().get(locs[0].id, [])
+                    if len(bs) == 1 and bs[0][0] == 'assign' and isinstance(bs[0][1], ast.Call):
+                        return True
+        return False
+
     # --- what a function body mutates, as (root name, attr path) pairs
     def _mutations(self, f: FuncDef) -> Set[Tuple[str, Tuple[str, ...]]]:
         out = set()
         for n in walk_own(f.node):
+            if isinstance(n, (ast.Assign, ast.AugAssign, ast.AnnAssign)) and self._is_value_keyed_memo(f, n):
+                continue
             targets = []
             if isinstance(n, ast.Assign):
                 targets = n.targets
@@ -58,10 +83,10 @@ class Purity:
                     if r:
                         out.add(r)
                 elif isinstance(t, ast.Attribute):
+                    # assignment to x.a changes x (recorded at path x.a so that `self.a = ..` names the attribute)
                     r = _root_name(t.value)
                     if r:
-                        out.add((r[0], r[1] + (t.attr,)) if False else r)
-                    # assignment to x.a mutates x (at path x)
+                        out.add((r[0], r[1] + (t.attr,)))
                 elif isinstance(t, ast.Name) and isinstance(n, ast.AugAssign):
                     pass
             if isinstance(n, ast.Call):
